@@ -50,7 +50,9 @@ class Synth:
         self.samples = [("%s_i%d" % (p, i), p) for p, n in zip(self.pops, self.nind) for i in range(n)]
         order = rng.permutation(len(self.samples))
         self.samples = [self.samples[i] for i in order]              # VCF column order mixes populations
-        self.extra = ["unlisted1"] if rng.random() < 0.5 else []     # a sample absent from popinfo
+        self.extra = ["unlisted%d" % (k + 1) for k in range(int(rng.integers(1, 4)))] if rng.random() < 0.5 else []     # samples absent from popinfo
+        # ... whose columns stand anywhere among the listed ones
+        self.colperm = [int(v) for v in rng.permutation(len(self.samples) + len(self.extra))]
         # half of the files carry allelic depths and total depth next to the genotype (missing calls then also have depth 0)
         self.fmt = "GT:AD:DP" if rng.random() < 0.5 else "GT"
         self.depth_seed = int(rng.integers(2 ** 31))
@@ -98,7 +100,7 @@ class Synth:
 
     def vcf_text(self):
         lines = ["##fileformat=VCFv4.2", "##source=verif",
-                 "#CHROM\tPOS\tID\tREF\tALT\tQUAL\tFILTER\tINFO\tFORMAT\t" + "\t".join([s for s, _ in self.samples] + self.extra)]
+                 "#CHROM\tPOS\tID\tREF\tALT\tQUAL\tFILTER\tINFO\tFORMAT\t" + "\t".join([([s for s, _ in self.samples] + self.extra)[k] for k in self.colperm])]
         drng = np.random.default_rng(self.depth_seed)
         self.depths = []
         for ch, pos, ref, alt, aa, filt, gts in self.records:
@@ -118,7 +120,7 @@ class Synth:
                     cells.append("%s:%d,%d:%d" % (g, r_, a_, r_ + a_))
                     row.append(r_ + a_)
             self.depths.append(row)
-            lines.append("%s\t%d\t.\t%s\t%s\t50\t%s\t%s\t%s\t%s" % (ch, pos, ref, alt, filt, info, self.fmt, "\t".join(cells)))
+            lines.append("%s\t%d\t.\t%s\t%s\t50\t%s\t%s\t%s\t%s" % (ch, pos, ref, alt, filt, info, self.fmt, "\t".join(cells[k] for k in self.colperm)))
         return "\n".join(lines) + "\n"
 
     def popinfo_text(self, header):
@@ -373,17 +375,20 @@ def run_vcf(spec, rec, dadi):
         if ok and syn.npop >= 2 and ci % 2 == 0:
             sub_rev = {p: sub[p] for p in reversed(syn.pops)}
             csz = int(rng.choice([50, 500, 10 ** 7]))
+            # (the two boolean options differ, in either direction by turns: each must reach what it names)
+            pol_b = bool((ci // 2) % 2)
             okb, boots = rec.noraise("bootstraps-returns", lambda: Misc.bootstraps_subsample_vcf(vcf, pop, sub_rev, 2, csz, list(syn.pops), filter=use_filter,
-                                                                                                 mask_corners=False, polarized=False),
+                                                                                                 mask_corners=not pol_b, polarized=pol_b),
                                      site="Misc.bootstraps_subsample_vcf", tags=tags)
             if okb:
                 want_shape = tuple(2 * sub[p] + 1 for p in syn.pops)
                 for bs in boots:
                     d = np.where(np.asarray(np.ma.getmaskarray(bs)), 0.0, np.asarray(bs.data))
-                    good = tuple(bs.shape) == want_shape and bool(np.all(np.abs(2 * d - np.round(2 * d)) < 1e-9)) and d.sum() <= 2 * len(syn.records) * max(1, len(syn.records))
+                    good = (tuple(bs.shape) == want_shape and bool(np.all(np.abs(2 * d - np.round(2 * d)) < 1e-9)) and d.sum() <= 2 * len(syn.records) * max(1, len(syn.records))
+                            and bool(bs.folded) == (not pol_b))
                     rec.check("subsample-bootstrap-sizes", good, site="Misc.bootstraps_subsample_vcf",
                               tags=dict(tags, unequal=len(set(sub.values())) > 1), observed={"shape": list(bs.shape), "want": list(want_shape)})
-                if csz == 10 ** 7 and len({r[0] for r in syn.records}) == 1 and not dup:
+                if csz == 10 ** 7 and len({r[0] for r in syn.records}) == 1 and not dup and not pol_b:
                     # one chunk: the bootstrap is the whole data set, total = number of kept SNPs
                     for bs in boots:
                         d = np.where(np.asarray(np.ma.getmaskarray(bs)), 0.0, np.asarray(bs.data))
